@@ -36,7 +36,10 @@ pub fn run(args: &Args) {
         let cell = ops::parse(b);
         match vrt::catch_any(|| one(args.seed, i, &cell, inst)) {
             Ok(v) => out.emit(v),
-            Err(p) => out.fail(i, -1, "C37:panic", &format!("seal/open panicked: {p}"), json!({"scheme": cell.scheme, "ops": b.get("ops")})),
+            Err(p) => {
+                let key = if p.starts_with("HONEST-FAIL") { "C37:honest-operation-failed" } else { "C37:panic" };
+                out.fail(i, -1, key, &format!("seal/open panicked: {p}"), json!({"scheme": cell.scheme, "ops": b.get("ops")}))
+            }
         }
     }
     out.finish();
@@ -134,7 +137,10 @@ fn one(seed: u64, i: usize, cell: &Cell, inst: u64) -> Value {
         match (res, cell.accept) {
             (Ok(true), true) | (Err(_), false) => {}
             (Ok(false), true) => return fail(i, &format!("C37:{}:wrong-plaintext", cell.scheme), "open succeeded but returned something different from what was sealed", obs(json!({}))),
-            (Err(e), true) => return fail(i, &format!("C37:{}:authentic-rejected", cell.scheme), &format!("open of the untouched ciphertext in its own context failed: {e}"), obs(json!({"err": e}))),
+            (Err(e), true) => {
+                let key = if cell.ops.is_empty() { format!("C37:roundtrip-failed:{}:len{}", cell.scheme, cell.plen) } else { format!("C37:{}:authentic-rejected", cell.scheme) };
+                return fail(i, &key, &format!("open of the untouched ciphertext in its own context failed (seal/open does not round-trip): {e}"), obs(json!({"err": e})));
+            }
             (Ok(same), false) => {
                 return fail(i, &format!("C37:{}:open-accepts:{}", cell.scheme, class(cell)),
                     "open succeeded although the ciphertext or a context component changed", obs(json!({"same_plaintext": same})));
@@ -146,26 +152,19 @@ fn one(seed: u64, i: usize, cell: &Cell, inst: u64) -> Value {
 
 type Outcome = Option<(bool, Result<bool, String>, Vec<u8>)>;
 
-fn other_bytes32(rng: &mut vrt::Rng, orig: &[u8; 32]) -> [u8; 32] {
-    loop {
-        let mut b = [0u8; 32];
-        rng.fill(&mut b);
-        if &b != orig {
-            return b;
-        }
-    }
-}
 
 fn groupkey(cell: &Cell, krng: &SeedRng, rng: &mut vrt::Rng, pt: &[u8]) -> Outcome {
     let key = GroupKey::<CS>::new(krng);
     let key2 = GroupKey::<CS>::new(krng);
     let author = SigningKey::<CS>::new(krng).public().expect("pk");
     let author2 = SigningKey::<CS>::new(krng).public().expect("pk");
-    let label = String::from_utf8(ops::random_alpha(rng, 6)).unwrap();
+    // unusual labels too: empty, one character, long
+    let llen = [6usize, 0, 1, 300][rng.below(4) as usize];
+    let label = String::from_utf8(ops::random_alpha(rng, llen)).unwrap();
     let parent = CmdId::random(krng);
     let mut ct = vec![0u8; pt.len() + GroupKey::<CS>::OVERHEAD];
     key.seal(krng, &mut ct, pt, Context { label: &label, parent, author_sign_pk: &author })
-        .unwrap_or_else(|e| vrt::die(&format!("GroupKey::seal: {e}")));
+        .unwrap_or_else(|e| panic!("HONEST-FAIL GroupKey::seal: {e}"));
     let mut art = Art { regions: vec![("nonce", ct[..12].to_vec()), ("body", ct[12..12 + pt.len()].to_vec()), ("tag", ct[12 + pt.len()..].to_vec())] };
     if !apply_art(&mut art, &cell.ops, rng) {
         return None;
@@ -174,14 +173,14 @@ fn groupkey(cell: &Cell, krng: &SeedRng, rng: &mut vrt::Rng, pt: &[u8]) -> Outco
     let plabel = match replaced(&cell.ops, "label") {
         None => label.clone(),
         Some(1) => loop {
-            let l = String::from_utf8(ops::random_alpha(rng, 6)).unwrap();
+            let l = String::from_utf8(ops::random_alpha(rng, llen.max(1))).unwrap();
             if l != label {
                 break l;
             }
         },
         Some(_) => format!("{label}x"),
     };
-    let pparent = if replaced(&cell.ops, "parent").is_some() { CmdId::from_bytes(other_bytes32(rng, parent.as_array())) } else { parent };
+    let pparent = match replaced(&cell.ops, "parent") { Some(a) => CmdId::from_bytes(ops::near(parent.as_array(), a, rng)), None => parent };
     let pkey = if replaced(&cell.ops, "key").is_some() { &key2 } else { &key };
     let pauthor = if replaced(&cell.ops, "author").is_some() { &author2 } else { &author };
     let unchanged = pct == ct && plabel == label && pparent == parent && std::ptr::eq(pkey, &key) && std::ptr::eq(pauthor, &author);
@@ -202,7 +201,7 @@ fn sealedgk(cell: &Cell, krng: &SeedRng, rng: &mut vrt::Rng) -> Outcome {
         .public()
         .expect("pk")
         .seal_group_key(krng, &gk, group)
-        .unwrap_or_else(|e| vrt::die(&format!("seal_group_key: {e}")));
+        .unwrap_or_else(|e| panic!("HONEST-FAIL seal_group_key: {e}"));
     let ser = postcard::to_allocvec(&egk).unwrap_or_else(|e| vrt::die(&format!("serialize EncryptedGroupKey: {e}")));
     let (body, tag) = split2(&ser, 64, 16, "EncryptedGroupKey");
     let mut art = Art { regions: vec![("encap", enc.as_bytes().to_vec()), ("body", body), ("tag", tag)] };
@@ -210,7 +209,7 @@ fn sealedgk(cell: &Cell, krng: &SeedRng, rng: &mut vrt::Rng) -> Outcome {
     if !apply_art(&mut art, &cell.ops, rng) {
         return None;
     }
-    let pgroup = if replaced(&cell.ops, "group").is_some() { GroupId::from_bytes(other_bytes32(rng, group.as_array())) } else { group };
+    let pgroup = match replaced(&cell.ops, "group") { Some(a) => GroupId::from_bytes(ops::near(group.as_array(), a, rng)), None => group };
     let psk = if replaced(&cell.ops, "recipient").is_some() { &recipient2 } else { &recipient };
     let unchanged = art.all() == orig_all && pgroup == group && std::ptr::eq(psk, &recipient);
     let res = (|| {
@@ -231,7 +230,7 @@ fn pskseed(cell: &Cell, krng: &SeedRng, rng: &mut vrt::Rng) -> Outcome {
     let seed = PskSeed::<CS>::new(krng, &group);
     let (enc, eps) = sender
         .seal_psk_seed(krng, &seed, &recipient.public().expect("pk"), &group)
-        .unwrap_or_else(|e| vrt::die(&format!("seal_psk_seed: {e}")));
+        .unwrap_or_else(|e| panic!("HONEST-FAIL seal_psk_seed: {e}"));
     let ser = postcard::to_allocvec(&eps).unwrap_or_else(|e| vrt::die(&format!("serialize EncryptedPskSeed: {e}")));
     let (body, tag) = split2(&ser, 64, 16, "EncryptedPskSeed");
     let mut art = Art { regions: vec![("encap", enc.as_bytes().to_vec()), ("body", body), ("tag", tag)] };
@@ -239,7 +238,7 @@ fn pskseed(cell: &Cell, krng: &SeedRng, rng: &mut vrt::Rng) -> Outcome {
     if !apply_art(&mut art, &cell.ops, rng) {
         return None;
     }
-    let pgroup = if replaced(&cell.ops, "group").is_some() { GroupId::from_bytes(other_bytes32(rng, group.as_array())) } else { group };
+    let pgroup = match replaced(&cell.ops, "group") { Some(a) => GroupId::from_bytes(ops::near(group.as_array(), a, rng)), None => group };
     let psender = if replaced(&cell.ops, "sender").is_some() { &sender2 } else { &sender };
     let precipient = if replaced(&cell.ops, "recipient").is_some() { &recipient2 } else { &recipient };
     let unchanged = art.all() == orig_all && pgroup == group && std::ptr::eq(psender, &sender) && std::ptr::eq(precipient, &recipient);
@@ -257,31 +256,22 @@ fn pskseed(cell: &Cell, krng: &SeedRng, rng: &mut vrt::Rng) -> Outcome {
 fn topicmsg(cell: &Cell, krng: &SeedRng, rng: &mut vrt::Rng, pt: &[u8]) -> Outcome {
     let version = Version::new(rng.below(1000) as u32 + 1);
     let topic = Topic::new(ops::random_alpha(rng, 9));
-    let key = TopicKey::<CS>::new(krng, version, &topic).unwrap_or_else(|e| vrt::die(&format!("TopicKey::new: {e}")));
-    let key2 = TopicKey::<CS>::new(krng, version, &topic).unwrap_or_else(|e| vrt::die(&format!("TopicKey::new: {e}")));
+    let key = TopicKey::<CS>::new(krng, version, &topic).unwrap_or_else(|e| panic!("HONEST-FAIL TopicKey::new: {e}"));
+    let key2 = TopicKey::<CS>::new(krng, version, &topic).unwrap_or_else(|e| panic!("HONEST-FAIL TopicKey::new: {e}"));
     let senc = SenderSecretKey::<CS>::new(krng).public().expect("pk");
     let senc2 = SenderSecretKey::<CS>::new(krng).public().expect("pk");
     let ssign = SenderSigningKey::<CS>::new(krng).public().expect("pk");
     let ssign2 = SenderSigningKey::<CS>::new(krng).public().expect("pk");
     let mut ct = vec![0u8; pt.len() + TopicKey::<CS>::OVERHEAD];
     key.seal_message(krng, &mut ct, pt, version, &topic, &Sender { enc_key: &senc, sign_key: &ssign })
-        .unwrap_or_else(|e| vrt::die(&format!("seal_message: {e}")));
+        .unwrap_or_else(|e| panic!("HONEST-FAIL seal_message: {e}"));
     let mut art = Art { regions: vec![("nonce", ct[..12].to_vec()), ("body", ct[12..12 + pt.len()].to_vec()), ("tag", ct[12 + pt.len()..].to_vec())] };
     if !apply_art(&mut art, &cell.ops, rng) {
         return None;
     }
     let pct = art.all();
-    let pversion = if replaced(&cell.ops, "version").is_some() { Version::new(version.as_u32() + 1 + rng.below(5) as u32) } else { version };
-    let ptopic = if replaced(&cell.ops, "topic").is_some() {
-        loop {
-            let t = Topic::new(ops::random_alpha(rng, 9));
-            if t != topic {
-                break t;
-            }
-        }
-    } else {
-        topic
-    };
+    let pversion = match replaced(&cell.ops, "version") { Some(1) => Version::new(version.as_u32() + 1), Some(_) => Version::new(version.as_u32() ^ 0x0100_0000), None => version };
+    let ptopic = match replaced(&cell.ops, "topic") { Some(a) => Topic::from(ops::near(topic.as_bytes(), a, rng)), None => topic };
     let pkey = if replaced(&cell.ops, "key").is_some() { &key2 } else { &key };
     let penc = if replaced(&cell.ops, "senc").is_some() { &senc2 } else { &senc };
     let psign = if replaced(&cell.ops, "ssign").is_some() { &ssign2 } else { &ssign };
@@ -301,12 +291,12 @@ fn sealedtopic(cell: &Cell, krng: &SeedRng, rng: &mut vrt::Rng) -> Outcome {
     let sender2 = SenderSecretKey::<CS>::new(krng);
     let receiver = ReceiverSecretKey::<CS>::new(krng);
     let receiver2 = ReceiverSecretKey::<CS>::new(krng);
-    let tk = TopicKey::<CS>::new(krng, version, &topic).unwrap_or_else(|e| vrt::die(&format!("TopicKey::new: {e}")));
+    let tk = TopicKey::<CS>::new(krng, version, &topic).unwrap_or_else(|e| panic!("HONEST-FAIL TopicKey::new: {e}"));
     let (enc, etk) = receiver
         .public()
         .expect("pk")
         .seal_topic_key(krng, version, &topic, &sender, &tk)
-        .unwrap_or_else(|e| vrt::die(&format!("seal_topic_key: {e}")));
+        .unwrap_or_else(|e| panic!("HONEST-FAIL seal_topic_key: {e}"));
     let raw = etk.as_bytes().to_vec();
     let (body, tag) = split2(&raw, 64, 16, "EncryptedTopicKey");
     let mut art = Art { regions: vec![("encap", enc.as_bytes().to_vec()), ("body", body), ("tag", tag)] };
@@ -314,17 +304,8 @@ fn sealedtopic(cell: &Cell, krng: &SeedRng, rng: &mut vrt::Rng) -> Outcome {
     if !apply_art(&mut art, &cell.ops, rng) {
         return None;
     }
-    let pversion = if replaced(&cell.ops, "version").is_some() { Version::new(version.as_u32() + 1 + rng.below(5) as u32) } else { version };
-    let ptopic = if replaced(&cell.ops, "topic").is_some() {
-        loop {
-            let t = Topic::new(ops::random_alpha(rng, 9));
-            if t != topic {
-                break t;
-            }
-        }
-    } else {
-        topic
-    };
+    let pversion = match replaced(&cell.ops, "version") { Some(1) => Version::new(version.as_u32() + 1), Some(_) => Version::new(version.as_u32() ^ 0x0100_0000), None => version };
+    let ptopic = match replaced(&cell.ops, "topic") { Some(a) => Topic::from(ops::near(topic.as_bytes(), a, rng)), None => topic };
     let psender = if replaced(&cell.ops, "sender").is_some() { &sender2 } else { &sender };
     let preceiver = if replaced(&cell.ops, "receiver").is_some() { &receiver2 } else { &receiver };
     let unchanged = art.all() == orig_all && pversion.as_u32() == version.as_u32() && ptopic == topic && std::ptr::eq(psender, &sender) && std::ptr::eq(preceiver, &receiver);
